@@ -7,10 +7,3 @@ pub broadcast proof fn axiom_spec_lz(x: usize)
 { }
 pub assume_specification [usize::leading_zeros] (x: usize) -> (r: u32)
     ensures r == spec_lz(x);
-pub fn vassert(c: bool)
-    requires c,
-{ }
-#[verifier::external_body]
-pub fn vpanic() -> !
-    requires false,
-{ unimplemented!() }
